@@ -3,9 +3,17 @@
 verus! {
 //@ include prelude/base.rs
 //@ include prelude/std_assumed.rs
-//@ shims config
-//@ broadcast vax::vax_group
-//@ type src/config.rs Config keep=hyperlinks_file_link_format,hostname
+//@ shims config features::hyperlinks
+//@ broadcast vax::vax_group axiom_cow_ref_str
+/// --file-transformation (utils/regex_replacement.rs, crate regex): what the displayed name becomes; uninterpreted
+#[verifier::external_body]
+pub struct RegexReplacement { _p: u8 }
+pub uninterp spec fn regex_replaced(r: &RegexReplacement, s: Seq<char>) -> Seq<char>;
+impl RegexReplacement {
+    #[verifier::external_body]
+    pub fn execute<'t>(&self, s: &'t str) -> (r: Cow<'t, str>) ensures cow_view(&r) == regex_replaced(self, s@) { unimplemented!() }
+}
+//@ type src/config.rs Config keep=hyperlinks_file_link_format,hostname,hyperlinks,diff_stat_align_width,file_regex_replacement
 
 /// `str::replace(from, to)` ("Replaces all matches of a pattern with another string"): uninterpreted,
 /// the result is a function of the three strings.
@@ -49,6 +57,97 @@ pub open spec fn verif_fmt1_view(n: usize) -> Seq<char> { ""@ + usize_decimal(n)
 //@before <<<url = url.replace("{line}", &>>>| assert(verif_fmt1_view(n) =~= usize_decimal(n));
 //@rewrite <<<absolute_path.as_ref().is_absolute()>>> => <<<verif_path_is_absolute(&absolute_path)>>>
 //@rewrite <<<&absolute_path.as_ref().to_string_lossy()>>> => <<<&verif_path_to_string(&absolute_path)>>>
+
+// ---------------------------------------------------------------- handlers/diff_stat.rs
+/// (R3) the two capture groups of DIFF_STAT_LINE_REGEX: the path and the text from the pipe onwards; uninterpreted
+pub uninterp spec fn stat_matches(line: Seq<char>) -> bool;
+pub uninterp spec fn stat_path(line: Seq<char>) -> Seq<char>;
+pub uninterp spec fn stat_suffix(line: Seq<char>) -> Seq<char>;
+pub struct VMatch<'a> { pub s: &'a str }
+impl<'a> VMatch<'a> { pub fn as_str(&self) -> (r: &'a str) ensures r == self.s { self.s } }
+pub struct VCaps<'a> { pub g1: &'a str, pub g2: &'a str }
+impl<'a> VCaps<'a> {
+    #[verifier::external_body]
+    pub fn get(&self, n: usize) -> (r: Option<VMatch<'a>>)
+        ensures n == 1 ==> r == Some(VMatch { s: self.g1 }), n == 2 ==> r == Some(VMatch { s: self.g2 }),
+    { unimplemented!() }
+}
+#[verifier::external_body]
+pub fn verif_diff_stat_captures<'a>(line: &'a str) -> (r: Option<VCaps<'a>>)
+    ensures r is Some == stat_matches(line@),
+            r matches Some(c) ==> c.g1@ == stat_path(line@) && c.g2@ == stat_suffix(line@),
+{ unimplemented!() }
+/// crate pathdiff: `diff_paths(path, base)` as displayed text (`.to_str()`); uninterpreted
+pub uninterp spec fn diff_paths_text(path: Seq<char>, base: Seq<char>) -> Option<Seq<char>>;
+pub struct VRelPath { pub text: Option<String> }
+impl VRelPath {
+    pub fn to_str(&self) -> (r: Option<&str>)
+        ensures match r { Some(t) => self.text matches Some(u) && t@ == u@, None => self.text is None },
+    { match &self.text { Some(t) => Some(t.as_str()), None => None } }
+}
+pub mod pathdiff {
+    use vstd::prelude::*;
+    use super::*;
+    #[verifier::external_body]
+    pub fn diff_paths(path: &str, base: &str) -> (r: Option<VRelPath>)
+        ensures match r { Some(p) => (match p.text { Some(t) => diff_paths_text(path@, base@) == Some(t@), None => diff_paths_text(path@, base@) is None }),
+                          None => diff_paths_text(path@, base@) is None },
+    { unimplemented!() }
+}
+/// utils::path::absolute_path: where a displayed (relative) path lives; ASSUMED to return absolute paths
+pub uninterp spec fn abs_path_text(rel: Seq<char>, config: &Config) -> Option<Seq<char>>;
+pub mod utils { pub mod path {
+    use vstd::prelude::*;
+    use crate::*;
+    #[verifier::external_body]
+    pub fn absolute_path(relative_path: &str, config: &Config) -> (r: Option<PathBuf>)
+        ensures match r { Some(p) => path_is_absolute(&p) && abs_path_text(relative_path@, config) == Some(path_text(&p)), None => abs_path_text(relative_path@, config) is None },
+    { unimplemented!() }
+} }
+pub open spec fn spaces(n: nat) -> Seq<char> { Seq::new(n, |k: int| ' ') }
+#[verifier::external_body]
+pub fn verif_spaces(n: usize) -> (r: String) ensures r@ == spaces(n as nat) { unimplemented!() }
+/// what a diff-stat line becomes under --relative-paths: the path relative to the user's directory, linked
+/// (when hyperlinks are on) to where THAT path lives, padded by the width of the DISPLAYED path only
+pub open spec fn diff_stat_line_spec(line: Seq<char>, cwd: Seq<char>, config: &Config) -> Option<Seq<char>> {
+    if !stat_matches(line) { None } else {
+        match diff_paths_text(stat_path(line), cwd) {
+            None => None,
+            Some(rel) => {
+                let shown = match abs_path_text(rel, config) {
+                    Some(abs) => if config.hyperlinks { osc8_spec(file_url_spec(config, abs, None), rel) } else { rel },
+                    None => rel,
+                };
+                let pad: nat = if config.diff_stat_align_width >= encode_utf8(rel).len() { (config.diff_stat_align_width - encode_utf8(rel).len()) as nat } else { 0 };
+                Some(" "@ + shown + ""@ + spaces(pad) + ""@ + stat_suffix(line) + ""@)
+            }
+        }
+    }
+}
+
+//@ fn src/handlers/diff_stat.rs relativize_path_in_diff_stat_line
+//@| ensures opt_view(r) == diff_stat_line_spec(line@, cwd_relative_to_repo_root@, config),  // @C19:diff.stat.link.targets.the.displayed.file.and.padding.ignores.the.link
+//@rewrite <<<DIFF_STAT_LINE_REGEX.captures(line)?>>> => <<<verif_diff_stat_captures(line)?>>>
+//@rewrite <<<" ".repeat(pad_width)>>> => <<<verif_spaces(pad_width)>>>
+pub open spec fn opt_view(o: Option<String>) -> Option<Seq<char>> { match o { Some(s) => Some(s@), None => None } }
+
+// ---------------------------------------------------------------- handlers/diff_header.rs: the `format_file` closure of the file header line
+/// the name shown in a file header (after --file-transformation)
+pub open spec fn shown_file(file: Seq<char>, config: &Config) -> Seq<char> {
+    match config.file_regex_replacement { Some(rr) => regex_replaced(&rr, file), None => file }
+}
+/// C19: the link wraps the DISPLAYED name and points at where the file NAMED IN THE DIFF lives
+pub open spec fn format_file_spec(file: Seq<char>, config: &Config) -> Seq<char> {
+    match abs_path_text(file, config) {
+        Some(abs) => if config.hyperlinks { osc8_spec(file_url_spec(config, abs, None), shown_file(file, config)) } else { shown_file(file, config) },
+        None => shown_file(file, config),
+    }
+}
+//@ region src/handlers/diff_header.rs get_file_change_description_from_file_paths
+//@sig pub fn format_file_region<'a>(file: &'a str, config: &'a Config) -> (r: Cow<'a, str>)
+//@from <<<let formatted_file = if let Some(regex_replacement)>>>
+//@to <<<_ => formatted_file, }>>>
+//@| ensures cow_view(&r) == format_file_spec(file@, config),  // @C19:file.header.link.wraps.the.shown.name.and.targets.the.named.file
 
 } // verus!
 fn main() {}
